@@ -406,7 +406,11 @@ func genFrame(t *rapid.T, clean bool) ([]byte, frameInfo) {
 		}
 		info.sub = sub
 		body = []byte{20, byte(sub)}
-		switch rapid.IntRange(0, 3).Draw(t, "extbody") {
+		extbody := rapid.IntRange(0, 3).Draw(t, "extbody")
+		if extbody == 1 && sub != 1 {
+			extbody = 2
+		}
+		switch extbody {
 		case 0: // valid message of that role
 			role := map[int]int{0: ref.XHandshake, 1: ref.XPex, 2: ref.XMetadata, 3: ref.XDontHave, 4: ref.XUploadOnly}[sub]
 			if sub > 4 {
@@ -414,6 +418,30 @@ func genFrame(t *rapid.T, clean bool) ([]byte, frameInfo) {
 			}
 			m := gen.Msg(t, ref.KExtended, role, 40000, false, func(int) uint8 { return uint8(sub) })
 			body = ref.Encode(m)[4:]
+		case 1:
+			// peer exchange with compact lists of every length: whole entries plus a
+			// remainder of 0..5 (IPv4) or 0..17 (IPv6) bytes, flags strings shorter,
+			// equal and longer than the lists
+			{
+				info.bc = "pex-compact-lengths"
+				d := map[string]any{}
+				for _, k := range []string{"added", "dropped"} {
+					if rapid.Bool().Draw(t, k) {
+						d[k] = gen.Bytes(t, k+".b", 6*rapid.IntRange(0, 3).Draw(t, k+".n")+rapid.IntRange(0, 5).Draw(t, k+".r"))
+					}
+				}
+				for _, k := range []string{"added6", "dropped6"} {
+					if rapid.Bool().Draw(t, k) {
+						d[k] = gen.Bytes(t, k+".b", 18*rapid.IntRange(0, 2).Draw(t, k+".n")+rapid.SampledFrom([]int{0, 0, 1, 5, 6, 16, 17}).Draw(t, k+".r"))
+					}
+				}
+				for _, k := range []string{"added.f", "added6.f"} {
+					if rapid.Bool().Draw(t, k) {
+						d[k] = gen.Bytes(t, k+".b", rapid.IntRange(0, 5).Draw(t, k+".n"))
+					}
+				}
+				body = append(body, ref.Benc(d)...)
+			}
 		default:
 			info.bc = "hostile-bencode"
 			keys := hsKeys
